@@ -17,7 +17,7 @@ USERVARS = ['TVCL', 'TVV', 'X1', 'X2', 'W', 'Z', 'TMP', 'IPRED']
 COVS = ['WGT', 'AGE', 'SEX']
 FUNCS = ['EXP', 'LOG', 'SQRT', 'ABS', 'INT', 'LOG10', 'SIN', 'COS', 'ATAN', 'PEXP', 'PLOG', 'PSQRT', 'PLOG10', 'PDZ', 'PZR', 'PNP', 'PHE', 'PNG', 'PHI', 'GAMLN', 'TAN', 'ASIN', 'ACOS', 'DEXP', 'DLOG', 'ALOG', 'DSQRT', 'DABS', 'DINT']
 FUNCS2 = ['MOD']
-NUMS = [(1.0, '1'), (2.0, '2'), (2.0, '2.'), (0.5, '.5'), (0.5, '0.5'), (1.5, '1.5E0'), (0.001, '1.0E-3'), (10.0, '1D1'), (20.0, '2d+1'), (3.0, '3.0'), (0.25, '2.5E-1'), (100.0, '100'), (0.0, '0'), (7.0, '7'), (1.0, '1.0D0')]
+NUMS = [(1.0, '1'), (2.0, '2'), (2.0, '2.'), (0.5, '.5'), (0.5, '0.5'), (1.5, '1.5E0'), (0.001, '1.0E-3'), (10.0, '1D1'), (20.0, '2d+1'), (3.0, '3.0'), (0.25, '2.5E-1'), (100.0, '100'), (7.0, '7'), (1.0, '1.0D0')]
 RELOPS = [('==', '.EQ.'), ('==', '=='), ('/=', '.NE.'), ('/=', '/='), ('<', '.LT.'), ('<', '<'), ('<=', '.LE.'), ('<=', '<='), ('>', '.GT.'), ('>', '>'), ('>=', '.GE.'), ('>=', '>=')]
 BINOPS = ['+', '-', '*', '/', '**']
 
@@ -92,6 +92,9 @@ FEATURES = st.fixed_dictionaries(
         inblock_dep=st.booleans(),
         error_reassigns_pk_var=st.booleans(),
         omega_values=st.booleans(),
+        neg_literal_pow=st.booleans(),
+        nested_pfunc=st.booleans(),
+        rel_shared_symbol=st.booleans(),
     )
 )
 
@@ -157,12 +160,23 @@ def resolve_expr(e, ctx: Ctx, defs):
             b = ('num', 2.0, '2')  # never divide by a literal zero
         return ('bin', o, a, b)
     if op == 'neg' and len(e) == 2:
-        return ('neg', resolve_expr(e[1], ctx, defs))
+        a = resolve_expr(e[1], ctx, defs)
+        if not ctx.feat.get('neg_literal_pow') and a[0] == 'bin' and a[1] == '**' and a[2][0] == 'num':
+            # "-2**X" (unary minus directly on a literal base of **): switched off -> "-1*2**X"
+            return ('bin', '*', ('neg', ('num', 1.0, '1')), a)
+        return ('neg', a)
     if op == 'call' and len(e) == 3:
         fn = FUNCS[e[1] % len(FUNCS)] if isinstance(e[1], int) else 'EXP'
         if fn in ('TAN', 'ASIN', 'ACOS') and not ctx.feat.get('unprotected_trig'):
             fn = 'ATAN'
-        return ('call', fn, (resolve_expr(e[2], ctx, defs),))
+        a = resolve_expr(e[2], ctx, defs)
+        if fn in PFUNCS and not ctx.feat.get('nested_pfunc'):
+            a = _no_pfunc(a)
+        if _is_const(a):
+            # a function of a literal (LOG10(0), SQRT(-1) ...) folds at parse time and may be outside
+            # the function's domain: valid NM-TRAN would not contain it
+            a = ('bin', '+', a, ('idx', 'THETA', (1,)))
+        return ('call', fn, (a,))
     if op == 'mod' and len(e) == 3:
         if not ctx.feat.get('mod'):
             return resolve_expr(e[1], ctx, defs)
@@ -187,6 +201,9 @@ def resolve_cond(c, ctx, defs):
         if _is_const(a) and _is_const(b):
             a = ('idx', 'THETA', (1,))
         if strip(a) == strip(b):
+            b = ('num', 1.5, '1.5E0')
+        if not ctx.feat.get('rel_shared_symbol') and (leaves(a) & leaves(b)):
+            # the same symbol on both sides of a comparison (switchable shape)
             b = ('num', 1.5, '1.5E0')
         return ('rel', o, a, b, sp)
     if op in ('and', 'or') and len(c) == 3:
@@ -235,6 +252,23 @@ def has_pfunc_in_cond(stmts):
             if s_[2] is not None and has_pfunc_in_cond(s_[2]):
                 return True
     return False
+
+
+def leaves(e, out=None):
+    if out is None:
+        out = set()
+    k = e[0]
+    if k in ('var', 'idx'):
+        out.add((k, e[1], e[2] if k == 'idx' else None))
+    elif k == 'neg':
+        leaves(e[1], out)
+    elif k == 'bin':
+        leaves(e[2], out)
+        leaves(e[3], out)
+    elif k == 'call':
+        for a in e[2]:
+            leaves(a, out)
+    return out
 
 
 def _is_const(e):
